@@ -26,6 +26,8 @@ REQUIRED_THEOREMS = [
     "eval_compositional", "eval_subst", "alias_replacement_sound", "prepare_sound",
     "signature_order_irrelevant_for_named_env", "consts_as_partial_application", "exprFunction_spec",
     "diff_sound", "heaviside_semantics", "tensor_eval_componentwise", "eval_pointwise", "gradient_sound",
+    "checkSignature_sound", "exprFunction_closed", "withUser_call1", "withUser_call2", "withUser_base", "eval_idx_bound",
+    "defined_div", "defined_powI", "primTab_names", "primTab_alg",
 ]
 RULE = ("programs = expression texts drawn by a type-directed (interval-typed) random generator over the whole "
         "grammar (numbers incl. decimal/scientific, variables, constants, indexed symbols, + - * / **, unary minus, "
